@@ -42,12 +42,17 @@ def build(rnd):
         for pn, (sig, r, w, e) in decl[n].items():
             k += 1
             attr = 'p%d' % k
-            ns = base_ns if n in base_if else derived_ns
+            # a derived class may bind further properties of an interface it inherits, without declaring interfaces itself
+            ns = base_ns if (n in base_if and rnd.random() < 0.7) else derived_ns
             ns[attr] = objects.DBusProperty(pn, interface=n)
             model[(n, pn)] = {'sig': sig, 'access': 'write' if (w and not r) else 'readwrite' if w else 'read',
                               'emits': 'true' if e is True else 'false' if e is False else e, 'attr': attr}
+    if not derived_if and rnd.random() < 0.6:
+        del derived_ns['dbusInterfaces']
     Base = type('PBase', (objects.DBusObject,), base_ns)
     Derived = type('PDerived', (Base,), derived_ns)
+    if rnd.random() < 0.4:
+        Derived = type('PLeaf', (Derived,), {})                # a further subclass that declares nothing
     conn = Conn()
     handler = objects.DBusObjectHandler(conn)
     obj = Derived('/org/verif/Props')
